@@ -152,7 +152,13 @@ func (f *decompressor) step() (err error) {
 	f.haveBits = err != errEndInput
 
 	if isError(err) || (err == errEndInput && f.eof) {
-		discardSize := f.peekSize - len(f.state.input) - int(state.bitsLen/8)
+		// bitsLen is negative when the decoder read past the end of its input: then no whole
+		// byte is held, and nothing beyond what was peeked may be discarded
+		held := 0
+		if state.bitsLen > 0 {
+			held = int(state.bitsLen / 8)
+		}
+		discardSize := f.peekSize - len(f.state.input) - held
 		if discardSize > 0 {
 			_, err := f.rBuf.Discard(discardSize)
 			if err != nil {
